@@ -544,6 +544,7 @@ class EventLog:
             rec["n_changes"] = len(payload["update"].changes_list)
         elif name == "parsed":
             rec["n_changes"] = len(payload["update"].changes_list)
+            rec["has_system"] = bool(payload.get("has_system"))
         self.events.append(rec)
         self.last_update = payload.get("update", getattr(self, "last_update", None))
 
@@ -564,3 +565,66 @@ def slot_of(ns, value):
     """(object name, attribute) of an attached value or dictionary"""
     c = value.modeling_obj_container
     return (c.name if c is not None else None, value.attr_name_in_mod_obj_container)
+
+
+# ---------------------------------------------------------------------------
+# slot-level comparison and topology export for the specification
+
+CLS_KEY = {"UsagePattern": "ups", "UsageJourney": "ujs", "UsageJourneyStep": "steps", "Job": "jobs",
+           "Server": "servers", "Storage": "storages", "Network": "nets", "Country": "countries",
+           "Device": "devices"}
+
+
+def topo_json(model):
+    """the abstract model in the shape of EFCore's topology record"""
+    t = {k: [] for k in CLS_KEY.values()}
+    t.update({"uj": {}, "net": {}, "country": {}, "devs": {}, "stepsOf": {}, "jobsOf": {}, "server": {},
+              "storage": {}, "sysups": []})
+    for n, d in model.items():
+        if n.startswith("__"):
+            continue
+        c = d["cls"]
+        if c == "System":
+            t["sysups"] = list(d["lst"]["usage_patterns"])
+            continue
+        t[CLS_KEY[c]].append(n)
+        if c == "UsagePattern":
+            t["uj"][n] = d["lnk"]["usage_journey"]
+            t["net"][n] = d["lnk"]["network"]
+            t["country"][n] = d["lnk"]["country"]
+            t["devs"][n] = list(d["lst"]["devices"])
+        elif c == "UsageJourney":
+            t["stepsOf"][n] = list(d["lst"]["uj_steps"])
+        elif c == "UsageJourneyStep":
+            t["jobsOf"][n] = list(d["lst"]["jobs"])
+        elif c == "Job":
+            t["server"][n] = d["lnk"]["server"]
+        elif c == "Server":
+            t["storage"][n] = d["lnk"]["storage"]
+    return t
+
+
+def diff_slots(snap_a, snap_b, names, skip_inputs_of=None):
+    """[obj, attr, key] triples that differ between two snapshots; key '-' for plain values, the
+    usage pattern's name for dictionary entries, '#' when the key sets of a dictionary differ"""
+    out = []
+    for n in names:
+        sa, sb = snap_a.get(n, {}), snap_b.get(n, {})
+        for a in sorted(set(sa) | set(sb)):
+            if a in BOOKKEEPING:
+                continue
+            va, vb = sa.get(a, ("E",)), sb.get(a, ("E",))
+            atol = TOTAL_ATOL if a == "total_footprint" else 1e-12
+            if va[0] == "D" or vb[0] == "D":
+                da = va[1] if va[0] == "D" else {}
+                db = vb[1] if vb[0] == "D" else {}
+                if set(da) != set(db):
+                    out.append([n, a, "#"])
+                for k in sorted(set(da) & set(db)):
+                    if not values_equal(da[k], db[k], atol=atol):
+                        out.append([n, a, k])
+                for k in sorted(set(da) ^ set(db)):
+                    out.append([n, a, k])
+            elif not values_equal(va, vb, atol=atol):
+                out.append([n, a, "-"])
+    return out
